@@ -126,3 +126,50 @@ def guards_imply(guards: list[Guard], known: Callable[[ast.expr], str | None],
             if not conclusion(env):
                 bad.append({k: v for k, v in env.items() if not k.startswith("?")})
     return (not bad, bad[:4])
+
+
+def raise_condition_table(fn: ast.AST, raises: list[ast.AST], atoms: list[str],
+                          known: Callable[[ast.expr], "str | None"]) -> dict[tuple[bool, ...], str]:
+    """For every assignment of the named atoms: is one of `raises` (raise statements, or any
+    other statements whose reachability is asked) reached 'always', 'never' or 'sometimes',
+    where the quantification is over all valuations of the *unknown* guard atoms.
+
+    `known(expr)` names an atom as '+name' / '-name' (negated).  Guards are the lexical guards
+    of each statement (if/elif/else nesting plus early exits)."""
+    from .absint.booltab import atoms_of, evaluate
+
+    atomize = generic_atomizer(known)
+    per_raise = []
+    free: list[str] = []
+    for r in raises:
+        gs = lexical_guards(fn, r) or []
+        per_raise.append(gs)
+        for e, _ in gs:
+            for a in atoms_of(e, atomize):
+                if a.startswith("?") and a not in free:
+                    free.append(a)
+    if len(free) > 10:
+        raise ValueError("too many unknown guard atoms")
+    out: dict[tuple[bool, ...], str] = {}
+    for vals in itertools.product([False, True], repeat=len(atoms)):
+        env0 = dict(zip(atoms, vals))
+        reached = []
+        for fv in itertools.product([False, True], repeat=len(free)):
+            env = dict(zip(free, fv))
+            hit = False
+            for gs in per_raise:
+                ok = True
+                for e, pol in gs:
+                    names = atoms_of(e, atomize)
+                    for n in names:
+                        if not n.startswith("?") and n not in env:
+                            env[n] = env0[n[1:]] if n[0] == "+" else (not env0[n[1:]])
+                    if evaluate(e, env, atomize) != pol:
+                        ok = False
+                        break
+                if ok:
+                    hit = True
+                    break
+            reached.append(hit)
+        out[vals] = "always" if all(reached) else ("never" if not any(reached) else "sometimes")
+    return out
